@@ -4,7 +4,7 @@ from props import COMMON_TRUST
 def udp_nontrivial(tok, res):
     if tok[0] in ("tunnel", "e2e"):
         return "socks=" in res and not res.startswith("B=;")
-    if tok[0] == "sudp":
+    if tok[0] in ("sudp", "spx"):
         return "conns=" in res and not res.startswith("W=;")
     if tok[0] == "frame":
         return "rd=toolong" in res or "rd=ok" in res
@@ -56,6 +56,14 @@ PROP = {
             "Frp.C03.sudp_drop_causes", "Frp.C03.sudp_lossless_if_no_drop", "Frp.C03.sudp_one_worker",
             "Frp.C03.sudp_first_datagram_delivered", "Frp.C03.sudp_next_datagram_delivered",
             "Frp.C03.msSub_sound", "Frp.C03.holdsOnSudp_sound", "Frp.C03.sudp_model_safe",
+            "Frp.C03.srv_reachable_inv", "Frp.C03.srv_conservation_up", "Frp.C03.srv_conservation_down",
+            "Frp.C03.srv_sentV_eq", "Frp.C03.srv_no_dup_across_connections", "Frp.C03.srv_wire_payload_sent",
+            "Frp.C03.srv_reply_routing", "Frp.C03.srv_reply_no_dup", "Frp.C03.srv_drop_reasons",
+            "Frp.C03.srv_drop_causes", "Frp.C03.srv_dead_conn_is_being_replaced", "Frp.C03.srv_lossless_if_no_drop",
+            "Frp.C03.srv_one_reader", "Frp.C03.srv_stale_sender_cancelled", "Frp.C03.srv_quiesce_eq",
+            "Frp.C03.srv_quiescent_one_sender", "Frp.C03.srv_taken_on_current", "Frp.C03.srv_next_datagram_delivered",
+            "Frp.C03.srv_replace_idle_healthy", "Frp.C03.srv_delivered_after_replacements",
+            "Frp.C03.holdsOnSrv_sound", "Frp.C03.srv_model_safe",
         ],
         "engines": [
             {"name": "udp", "quick_n": 6000, "thorough_n": 20000, "thorough_seeds": 4,
@@ -70,13 +78,24 @@ PROP = {
                 "tokens = datagrams, bursts, replies, pings, loss of the visitor connection by FIN / unknown frame / "
                 "oversize frame at arbitrary points, connection attempts failing at dial / by error response / by "
                 "close, also several in a row; plain / encrypted / compressed) and e2es runs (tunnel traffic through "
-                "real SUDPVisitor + frps + sudp proxy in-process); "
-                "non-trivial = a tunnel / sudp run that delivered something, a frame accepted or rejected, a malformed "
+                "real SUDPVisitor + frps + sudp proxy in-process) and spx runs (the real udp proxy of the server inside a "
+                "real frps - Service, Control, proxy.NewProxy(udp).Run, work-connection loop, reader / sender per work "
+                "connection, ForwardUserConn -, the harness playing frpc over the real dialer: NewProxy, a NewWorkConn for "
+                "every ReqWorkConn, 1-4 users, 10-40 script tokens = datagrams, bursts, replies, pings, UDPPackets without "
+                "remote address or with undecodable content, loss of the work connection by close / unknown frame / "
+                "oversize frame while idle - 1 to 3 replacements in a row followed by single datagrams - and right behind "
+                "a burst; plain / encrypted / compressed); "
+                "non-trivial = a tunnel / sudp / spx run that delivered something, a frame accepted or rejected, a malformed "
                 "string that decodes, a non-empty payload; distinct = distinct (op line, result) pairs",
         "trusted": COMMON_TRUST + [
-            "models Frp/Model/Base64.lean, Frp/Model/Udp.lean, Frp/Model/Sudp.lean written by hand; tied by the udp engine "
-            "(real udp.NewUDPPacket/GetContent/ForwardUserConn/Forwarder, msg.WriteMsg/ReadMsg/ReadMsgInto, "
-            "visitor.NewVisitor(SUDPVisitorConfig).Run/Close with a scripted visitor.Helper)",
+            "models Frp/Model/Base64.lean, Frp/Model/Udp.lean, Frp/Model/Sudp.lean, Frp/Model/UdpSrv.lean written by hand; "
+            "tied by the udp engine (real udp.NewUDPPacket/GetContent/ForwardUserConn/Forwarder, msg.WriteMsg/ReadMsg/"
+            "ReadMsgInto, visitor.NewVisitor(SUDPVisitorConfig).Run/Close with a scripted visitor.Helper, "
+            "server.NewService + a scripted frpc for server/proxy/udp.go)",
+            "spx ops: the frpc end of the work connections is played by the harness; the light-load schedule of a script "
+            "(cancelled senders have left before the next datagram, the current sender takes it) is computed by the Lean "
+            "engine from the model; the placement of a datagram that was in flight when the work connection was taken "
+            "away (old connection, new connection, lost) is taken over from the implementation when it is an allowed one",
             "sudp ops: the far side of the visitor connection (frps + sudp proxy) is played by the harness; the light-load "
             "schedule of a script (which datagram opens which connection, which one is consumed by a failing attempt) is "
             "computed by the Lean engine from the model and by the harness from the same rules",
@@ -92,6 +111,10 @@ PROP = {
             "sudp visitor model: SUDPVisitor.Close (closing sendCh/readCh) is not a label; the 60 s read deadline is "
             "the label readerDie; 15 ms after the far side has seen the visitor close its end the worker has returned "
             "(sudp ops re-run once when a datagram sent right after a connection loss is missing)",
+            "server udp proxy model: UDPProxy.Close (closing sendCh/readCh/checkCloseCh) is not a label; the 60 s read "
+            "deadline of a work connection is the label readerDie; a failing wrapper set-up (WithEncryption) is not a "
+            "label; 15 ms after the next StartWorkConn has been read the cancelled sender of the previous connection "
+            "has returned (spx ops re-run once when a datagram sent after that is missing)",
             "encryption/compression/bandwidth-limit wrappers of the work connection are byte-transparent (C01/C05)",
         ],
     }
@@ -99,8 +122,8 @@ PROP = {
 META = {
         "engine": "lean+harness(udp)",
         "design_ref": "DESIGN.md §6 C03",
-        "technique": "Lean 4: base64 round-trip and frame-length arithmetic; labelled transition system of the "
-                     "UDP forwarding path with multiset-conservation and socket-ownership invariants proved for "
+        "technique": "Lean 4: base64 round-trip and frame-length arithmetic; labelled transition systems of the "
+                     "UDP forwarding path, the sudp visitor and the server-side work-connection life cycle with multiset-conservation and socket-ownership invariants proved for "
                      "all interleavings; differential correspondence with the real codec and forwarder",
         "text": "Proof (partial): (1) GetContent(NewUDPPacket(b)) = b for every byte string, encoding injective, "
                 "length 4*ceil(n/3); (2) the JSON body of a tunnel-path UDPPacket has length "
@@ -118,13 +141,26 @@ META = {
                 "one visitor connection + dropped (multisets), so nothing is written twice - in particular the datagram "
                 "that opened a connection is not repeated on a later one -, every written packet is one sent datagram "
                 "with its sender's address, replies go to the address they carry, drops only by full queue, failed "
-                "connection attempt or failed write, and at light load the canonical schedule delivers. The models "
-                "are tied to the code by ~5400 ops per quick run against the real functions, the Lean predicate "
+                "connection attempt or failed write, and at light load the canonical schedule delivers; (5) server side "
+                "of a udp proxy (server/proxy/udp.go Run: work-connection loop, one reader and one sender goroutine per "
+                "work connection, sendCh / readCh / checkCloseCh shared by all work connections, per-connection cancel, as "
+                "a transition system): for every interleaving including any number of replacements of the work "
+                "connection, idle or under traffic: datagrams received = queued + written on exactly one work "
+                "connection + dropped (multisets), every written packet is one sent datagram with its sender's address "
+                "on a connection the proxy obtained, replies go to the address they carry and packets without address "
+                "or with undecodable content reach nobody, there is one reader and it belongs to the current "
+                "connection, every live sender other than the current connection's has been cancelled (it is not "
+                "parked on sendCh alone), once the cancelled senders have left at most one sender remains and a "
+                "datagram taken from sendCh is written on the CURRENT connection, drops only by full queue or a failed "
+                "write, and a connection closed locally under a live sender is being replaced; after any number k of "
+                "idle replacements the next datagram is written on connection gen+k and nothing is dropped. The models "
+                "are tied to the code by ~5450 ops per quick run against the real functions, the Lean predicate "
                 "being evaluated on the implementation's results.",
         "note": "Known finding: udpPacketSize is not validated; above 7605 a single large datagram produces a "
                 "frame the peer rejects (client side: reader goroutine exits, connection stays up, tunnel is "
                 "dead until restart). Not covered: kernel UDP, goroutine timing (30 s idle-expiry window of a "
-                "per-user socket), the old Forwarder generation after a reconnect, SUDPVisitor.Close, "
+                "per-user socket), the old Forwarder generation after a reconnect, SUDPVisitor.Close, UDPProxy.Close, "
+                "the 60 s read deadline of a work connection in real time, "
                 "loss of the visitor connection inside a real frps (the scripted far side plays frps there; the "
                 "e2es runs go over one visitor connection).",
     }
